@@ -1,5 +1,6 @@
 """C01 — deletion safety: real update_delete + per-copy delete steps interleaved with other steps vs the Lean World model."""
 import json
+import os
 
 import common
 import env as envmod
@@ -76,6 +77,8 @@ def run(ctx):
                             "after every step the real index + storage are compared with the Lean World model and oracles judge every "
                             "unlink (fresh count of healthy archive copies elsewhere), every selection and every healthy copy's bytes. "
                             "distinct = whole op line sequence; non-trivial = at least 2 steps")
+    for p_, lg in corpus_busy_group(ctx):
+        ctx.violation("overlap:second-transfer-while-first-in-flight", p_, {"kind": "busy-group", "steps": lg})
     # dispatch stage (C01_no_overlapping_dispatch): the tasks one real update pass queues vs `iterateOps`, on worlds with
     # duplicate requests; oracle: never two transfers of one file into one group in one pass
     from props import c07
@@ -91,6 +94,67 @@ def run(ctx):
                     ctx.violation(f"{cls}:{msg[:40]}", msg, {"kind": "history", "ops": [l for l in h["lines"] if l.startswith("w.")], "step": d})
     from props.c06 import finish_search
     finish_search(ctx, ok)
+
+
+def corpus_busy_group(ctx):
+    """state kept across passes: a transfer into a group is still queued / running on one of the group's nodes when the next
+    update pass runs.  Groups with one node (Default) and with 2-3 nodes (Transport: the other nodes are idle); the first
+    transfer is left at each of its stages (search queued, search done and pull queued).  Oracle: while a transfer of a file
+    into a group is in flight no second transfer of that file into that group is queued - two of them would write the same
+    destination path, and the loser's clean-up unlinks what the winner recorded as healthy."""
+    import itertools
+    import re
+    import shutil
+    import world as worldmod
+    probs = []
+    with envmod.Env() as e:
+        for nn, stage, extra_req in itertools.product([1, 2, 3], ["search-queued", "pull-queued"], [False, True]):
+            w = worldmod.World(e)
+            db = w.db
+            for m in (db.StorageTransferAction, db.ArchiveFileCopyRequest, db.ArchiveFileImportRequest, db.ArchiveFileCopy,
+                      db.ArchiveFile, db.ArchiveAcq, db.StorageNode, db.StorageGroup):
+                m.delete().execute()
+            shutil.rmtree(os.path.join(e.tmp, "roots"), ignore_errors=True)
+            gs = w.group("gs")
+            gt = w.group("gt", io_class="Transport" if nn > 1 else None)
+            src = w.node("src", gs, stype="F")
+            src2 = w.node("src2", w.group("gs2"), stype="F")
+            ts = [w.node(f"t{i}", gt, stype="T" if nn > 1 else "A") for i in range(nn)]
+            f = w.file(w.acq("acq"), "f.dat", b"payload")
+            w.copy(f, src, has="Y")
+            w.copy(f, src2, has="Y")
+            w.req(f, src, gt)
+            os.environ["PATH"] = os.path.join(wharness.FAKE, "none")
+            log = [f"destination group with {nn} node(s); first transfer left at: {stage}; second request from another source: {extra_req}"]
+            try:
+                d = worldmod.Daemon(e, "h1")
+                d.iterate()
+                log.append(f"pass 1 queued {[t[1] for t in d.pending()]}")
+                if stage == "pull-queued":
+                    for _ in range(8):          # workers run what is queued until the search has handed the transfer to a node
+                        if any(re.match(r"AFCR#\d+:", t[1]) for t in d.pending()):
+                            break
+                        r = d.run_task()
+                        log.append(f"ran {r[1] if r else None}; queued now {[t[1] for t in d.pending()]}")
+                if extra_req:
+                    w.req(f, src2, gt)
+                d.iterate()
+                pend = [t[1] for t in d.pending()]
+                log.append(f"pass 2; queued now {pend}")
+            finally:
+                os.environ["PATH"] = "/usr/local/bin:/usr/bin:/bin"
+                # finish what is queued so that nothing leaks into the next scenario
+                try:
+                    d.drain()
+                except Exception:
+                    pass
+            transfers = [x for x in pend if x.startswith("Pre-pull search for acq/f.dat") or re.match(r"AFCR#\d+:", x)]
+            ctx.case(("busy-group", nn, stage, extra_req), nontrivial=True, sample={"scenario": log} if (nn, stage, extra_req) == (2, "pull-queued", False) else None)
+            ctx.count(f"busy-group:nodes={nn}:{'one' if len(transfers) == 1 else len(transfers)}-in-flight")
+            if len(transfers) > 1:
+                probs.append((f"with a transfer of acq/f.dat into group gt still in flight ({stage}) the next update pass queued another one: "
+                              f"{transfers} ({nn} node(s) in the group)", log))
+    return probs
 
 
 def replay(ctx, path):
